@@ -5,3 +5,4 @@ pub mod plist;
 pub mod scan;
 pub mod summary;
 pub mod version;
+pub mod collide;
